@@ -184,6 +184,8 @@ class WatermarkPoolSink(PoolSink):
     return ar
 
   def _OpenImpl(self):
+    if self._state == ChannelState.Closed:
+      raise Exception('Unable to open a connection to %s' % self.endpoint)
     sink = self._Get()
     self._Release(sink)
     if self._state == ChannelState.Closed:
